@@ -78,6 +78,13 @@ ParFaultScenarios(store) ==
     Scn("par_push", CfgStore(store), <<>>, <<Push("A", "ok", "code", <<"offline", "a">>, <<>>, "sent", "none", 0)>>,
         <<UsePar("A", "own", 1, "none"), UsePar("A", "own", 1, "none")>>) }
 ScnParFault == ParFaultScenarios("mem") \cup ParFaultScenarios("tx")
+(* C03 under storage failures: a code issued with a challenge is redeemed without, with the right and with a wrong verifier while
+   one storage call fails; afterwards the binding is still in force (no verifier: refused; the right one: redeemable once) *)
+PkceFaultScenarios(store) ==
+  { Scn("pkce_none", CfgStore(store), <<AuthzPkce>>, <<RedeemV(1, "none")>>, <<RedeemV(1, "none"), RedeemV(1, "right"), RedeemV(1, "right")>>),
+    Scn("pkce_right", CfgStore(store), <<AuthzPkce>>, <<RedeemV(1, "right")>>, <<RedeemV(1, "none"), RedeemV(1, "right")>>),
+    Scn("pkce_wrong", CfgStore(store), <<AuthzPkce>>, <<RedeemV(1, "wrong")>>, <<RedeemV(1, "none"), RedeemV(1, "right")>>) }
+ScnPkceFault == PkceFaultScenarios("mem") \cup PkceFaultScenarios("tx")
 ScnFaultTx == FaultScenarios("tx")
 ScnFaultMem == FaultScenarios("mem")
 
